@@ -79,7 +79,9 @@ def case_strategy(draw, half):
     case = dict(mdl)
     case["half"] = half
     case["unit"] = draw(st.sampled_from(UNITS))
-    case["phases"] = draw(st.sampled_from(["OWG", "OWG", "OWG", "OW", "OG"]))
+    # half B: three phases only (an injector of a phase the run does not have can never flow, and a well that does not
+    # flow is written as shut)
+    case["phases"] = draw(st.sampled_from(["OWG", "OWG", "OWG", "OW", "OG"])) if half == "A" else "OWG"
     case["fmt"] = draw(st.booleans())
     case["unif"] = draw(st.booleans())
     case["double"] = draw(st.booleans())
@@ -97,8 +99,8 @@ def case_strategy(draw, half):
     # shapes that run into a recorded finding are generated in a minority of cases only (one quirk at a time), so that
     # the search goes on behind them: wells without any control keyword; report times off midnight (fractional TSTEP,
     # LAB hours); DRVDT without DRSDT
-    # an action that ran more than once
-    case["quirk"] = draw(st.sampled_from([None] * 12 + ["bare_wells", "fractional_time", "drvdt", "action_reruns"]))
+    # an action that ran more than once; an integer solution array
+    case["quirk"] = draw(st.sampled_from([None] * 12 + ["bare_wells", "fractional_time", "drvdt", "action_reruns", "int_array", "zero_limit"]))
     return case
 
 
@@ -121,6 +123,9 @@ def block_kws(case, b):
     kws = list(b["kws"])
     if case.get("quirk") != "drvdt":
         kws = [k for k in kws if not k.startswith("DRVDT")]
+    if case.get("quirk") != "zero_limit":
+        # a rate limit of exactly 0 is dropped by the restart writer (known finding): use a small positive limit instead
+        kws = [re.sub(r"(?<= )0(?= )", "0.5", k) if k.startswith(("WCONPROD", "WCONINJE")) else k for k in kws]
     if case.get("quirk") == "bare_wells":
         return kws
     txt = "".join(kws)
@@ -285,8 +290,9 @@ def mk_wells(case, S, salt, tag, final, half):
             w["conns"].append({"index": c["index"], "rates": {k: hx(v) for k, v in cr.items()},
                                "pressure": hx(logu(salt, 5, 7.7, ct, "p")), "reservoir_rate": hx(U(salt, ct, "rr") * 1e-2),
                                "cell_pressure": hx(logu(salt, 5, 7.7, ct, "cp")), "cell_sw": hx(U(salt, ct, "sw")),
-                               "cell_sg": hx(U(salt, ct, "sg") * 0.3), "kh": hx(1e-12 * (1 + U(salt, ct, "kh"))),
-                               "trans": hx(1e-11 * (1 + U(salt, ct, "tr")))})
+                               "cell_sg": hx(U(salt, ct, "sg") * 0.3), "kh": c["Kh"],
+                               # the simulator's connection transmissibility factor IS the schedule's (no rock compaction)
+                               "trans": c["CF"]})
         if flowing and not any(any(float.fromhex(v) != 0 for v in c["rates"].values()) for c in w["conns"]):
             flowing = False
         w["segs"] = []
@@ -316,7 +322,7 @@ SOL_MENU = [("PRESSURE", "pressure", 5, 7.7), ("SWAT", "identity", -3, 0), ("SGA
 EXTRA_SOL_MENU = [("SOMAX", "identity", -3, 0, "RESTART_SOLUTION"), ("PCSWM_OW", "pressure", 3, 6, "RESTART_OPM_EXTENDED"),
                   ("KRNSW_OW", "identity", -3, 0, "RESTART_OPM_EXTENDED"), ("RSSAT", "gas_oil_ratio", 0, 2.5, "RESTART_AUXILIARY"),
                   ("PBUB", "pressure", 5, 7.5, "RESTART_AUXILIARY"), ("1OVERBO", "oil_inverse_formation_volume_factor", -0.3, 0, "RESTART_AUXILIARY"),
-                  ("DENO", "density", 2.5, 3, "RESTART_AUXILIARY"), ("FIPNUMX", None, None, None, "RESTART_SOLUTION")]
+                  ("DENO", "density", 2.5, 3, "RESTART_AUXILIARY")]
 EXTRA_MENU = [("OPMEXTRA", "identity", 1), ("THRESHPR", "pressure", 1), ("EXTRA1", "pressure", 5), ("EXTRA2", "liquid_surface_rate", 3),
               ("EXTRA3", "length", 7), ("EXTRA4", "identity", 4)]
 MEASURE_ALIASES = {"oil_inverse_formation_volume_factor": "oil_inverse_formation_volume_factor"}
@@ -346,6 +352,9 @@ def mk_solution(case, nactive, salt):
                          "idata": [int(U(salt, key, i) * 2 ** 32) - 2 ** 31 for i in range(nactive)]})
         else:
             sols.append({"key": key, "measure": meas, "target": tgt, "data": [logu(salt, lo, hi, key, i) for i in range(nactive)]})
+    if case.get("quirk") == "int_array":
+        sols.append({"key": "FIPNUMX", "measure": "identity", "target": "RESTART_SOLUTION",
+                     "idata": [int(U(salt, "FIPNUMX", i) * 2 ** 32) - 2 ** 31 for i in range(nactive)]})
     extras = []
     k0 = int(U(salt, "xtra") * len(EXTRA_MENU))
     for j in range(case["nextra"]):
@@ -506,6 +515,8 @@ class C05(Check):
         from vlib.runner import load_known
         known = {e["key"] for e in load_known(self.ID) if e.get("status") == "known"}
         first = None
+        if os.environ.get("C05_HISTO"):
+            gen = list(gen)         # triage aid: walk everything so that the difference histogram is complete
         for k, v in enumerate(gen):
             if v.get("key") not in known:
                 return v
@@ -733,4 +744,271 @@ class C05(Check):
 
     # ------------------------------------------------------------------------------------------------------------
     def check_B(self, case, ctx):
-        return None
+        P = ctx.P
+        req, S, wells, sols, extras, runs, n = self.prepare_run(case, ctx)
+        nsteps = len(S["seconds"])
+        steps = list(range(n, nsteps))
+        if len(steps) > 4:
+            steps = steps[:3] + [steps[-1]]
+        req["steps"] = steps
+        r = P.call("rst_sched", **req)
+        if "save_error" in r:
+            return self.save_error(case, r["save_error"], req["text"])
+        if "rst_error" in r:
+            return self.rst_error(case, r["rst_error"], S, n)
+        return self.pick(self.oracle_B(case, r, steps, n, ctx))
+
+    def oracle_B(self, case, r, steps, n, ctx):
+        if r["rst_nsteps"] != r["base_nsteps"]:
+            yield {"rule": "B: number of report steps of the restarted schedule", "detail": [r["base_nsteps"], r["rst_nsteps"]], "key": "B:nsteps"}
+            return
+        sb, sr = r["seconds_base"], r["seconds_rst"]
+        for j in range(n, len(sb)):
+            if sb[j] != sr[j]:
+                off = hexf(sb[n]) % 86400
+                yield {"rule": "B: elapsed time of report step %d differs in the restarted schedule" % j,
+                       "detail": {"base": hexf(sb[j]), "restarted": hexf(sr[j]), "restart_time_seconds_after_midnight": off},
+                       "key": "B:restart-time-of-day-dropped" if off != 0 and abs(hexf(sb[j]) - hexf(sr[j]) - off) < 1 else "B:seconds"}
+                break
+        seen = set()
+        for j, a, b in zip(steps, r["base"], r["rst"]):
+            a, b = norm_state(a), norm_state(b)
+            for path, x, y in diff_states(a, b, case):
+                attr = attr_of(path)
+                ctx.label("B:diff:" + attr) if os.environ.get("C05_HISTO") else None
+                if attr in NOT_CLAIMED or attr.split(".")[0] in NOT_CLAIMED:
+                    continue
+                if attr in seen:
+                    continue
+                seen.add(attr)
+                yield {"rule": "B: attribute %s of the restarted schedule differs from the original run at report step %d (restart at %d)" % (attr, j, n),
+                       "detail": {"where": path, "original": x, "restarted": y, "unit": case["unit"], "formatted": case["fmt"],
+                                  "flavour": case["flavour"]},
+                       "key": key_B(attr, x, y, case)}
+
+
+# ----------------------------------------------------------------------------------------------------------------
+# half B: comparison of the two dumps
+HEXRE = re.compile(r"^-?0x[0-9a-f.]+p[+-]\d+$")
+DOUB_ATTRS = ("well.seg.", "udq.", "network.")      # stored in DOUB arrays (RSEG, DUDx, RNODE/RBRAN); everything else REAL
+
+
+def attr_of(path):
+    """wells/P1/conn/2/CF -> well.conn.CF ; groups/G1/inj/WATER/cmode -> group.inj.cmode"""
+    p = path.strip("/").split("/")
+    if p[0] == "wells" and len(p) > 1:
+        rest = [q for q in p[2:] if not q.isdigit()]
+        return ".".join(["well"] + rest) if rest else "well"
+    if p[0] == "groups" and len(p) > 1:
+        rest = [q for q in p[2:] if not q.isdigit() and q not in ("WATER", "GAS", "OIL")]
+        return ".".join(["group"] + rest) if rest else "group"
+    if p[0] == "udq" and len(p) > 2 and p[1] == "items":
+        return ".".join(["udq"] + [q for q in p[3:] if not q.isdigit()][:1]) if len(p) > 3 else "udq.items"
+    if p[0] == "actions" and len(p) > 1:
+        return ".".join(["action"] + [q for q in p[2:] if not q.isdigit()][:1]) if len(p) > 2 else "action"
+    if p[0] == "network" and len(p) > 2 and p[1] == "nodes":
+        return ".".join(["network.node"] + [q for q in p[3:] if not q.isdigit()]) if len(p) > 3 else "network.node"
+    return ".".join(q for q in p if not q.isdigit())
+
+
+def num_close(x, y, attr, case):
+    a, b = hexf(x), hexf(y)
+    if a == b:
+        return True
+    if math.isnan(a) or math.isnan(b) or math.isinf(a) or math.isinf(b):
+        return False
+    if attr.startswith(DOUB_ATTRS):
+        rel = 8 * 2.0 ** -52 + (5.0e-14 if case["fmt"] else 0.0)
+    else:
+        # REAL item: deck-unit value rounded to float (2^-24), 8 digits + another float rounding when formatted,
+        # a few double roundings for the two unit conversions
+        rel = 2.0 ** -23 + (5.0e-8 + 2.0 ** -24 if case["fmt"] else 0.0)
+    return abs(a - b) <= rel * max(abs(a), abs(b))
+
+
+def diff_states(a, b, case, path=""):
+    """all differing leaves (path, original, restarted)"""
+    if isinstance(a, dict) and isinstance(b, dict):
+        for k in sorted(set(a) | set(b)):
+            if k not in a or k not in b:
+                yield path + "/" + k, a.get(k, "<absent>") if not isinstance(a.get(k), (dict, list)) else "<present>", \
+                    b.get(k, "<absent>") if not isinstance(b.get(k), (dict, list)) else "<present>"
+                continue
+            yield from diff_states(a[k], b[k], case, path + "/" + k)
+        return
+    if isinstance(a, list) and isinstance(b, list):
+        if len(a) != len(b):
+            yield path + "/len", len(a), len(b)
+            return
+        for i, (u, v) in enumerate(zip(a, b)):
+            yield from diff_states(u, v, case, "%s/%d" % (path, i))
+        return
+    if isinstance(a, str) and isinstance(b, str) and HEXRE.match(a) and HEXRE.match(b):
+        if not num_close(a, b, attr_of(path), case):
+            yield path, hexf(a), hexf(b)
+        return
+    if a != b:
+        yield path, a, b
+
+
+def key_B(attr, x, y, case):
+    """stable finding key: the attribute, except where one root cause shows under several attributes"""
+    lim = re.match(r"well\.(prod|inj)Controls\.(oil_rate|water_rate|gas_rate|liquid_rate|resv_rate|surface_rate|reservoir_rate)$", attr)
+    if lim and y == "<inactive>" and isinstance(x, float) and x == 0.0:
+        return "B:well.zero-rate-limit-dropped"
+    if lim and isinstance(x, float) and isinstance(y, float) and x != 0 and y != 0 and case["unit"] != "METRIC":
+        # original run converted the WELTARG value with METRIC factors (target defaulted in WCONPROD): ratio of the unit factors
+        for meas in ("liquid_surface_rate", "gas_surface_rate", "rate"):
+            ratio = RU.measure("METRIC", meas)[0] / RU.measure(case["unit"], meas)[0]
+            if abs(x / y / ratio - 1) < 1e-5:
+                return "B:weltarg-on-defaulted-limit-uses-metric-units"
+    if attr in ("group.prod.allRatesAction", "group.prod.waterAction", "group.prod.gasAction", "group.prod.liquidAction"):
+        return "B:group.prod.exceed-action"
+    if attr.endswith(".available_group_control") and attr.startswith("group."):
+        return "B:group.available_group_control"
+    if attr in ("group.prod.cmode", "group.prodControls.cmode", "group.prod.controls") or \
+            (re.match(r"group\.prodControls\.\w+_target$", attr) and x == "<inactive>"):
+        return "B:group.prod.cmode"
+    if attr.startswith("wlists"):
+        return "B:wlists"
+    if attr == "well.seg.inlets.len":
+        return "B:well.seg.inlets"
+    if attr == "network.node.target_group":
+        return "B:network.node.as_choke"
+    if attr.startswith("group.injControls.") and attr.endswith("voidage_group"):
+        return "B:group.inj.voidage_group"
+    return "B:" + attr
+
+
+PROD_LIMITS = {"oil_rate": 0, "water_rate": 1, "gas_rate": 2, "liquid_rate": 3, "resv_rate": 5, "bhp_limit": 6, "thp_limit": 7}
+INJ_LIMITS = {"surface_rate": 0, "reservoir_rate": 1, "bhp_limit": 2, "thp_limit": 3}
+
+
+def norm_state(s):
+    """the restart-relevant projection of one dumped state: what the statement's list means for each entity.
+    * the production block is compared for producers, the injection block for injectors (the other block of a well is
+      never used);
+    * limits and targets are compared as the simulator sees them (Well::productionControls / injectionControls
+      evaluated against the summary state): a limit value counts only when the corresponding constraint is active;
+      the raw UDA members are compared by NAME when they hold a UDQ (restart stores numbers and UDQ references
+      differently from the deck representation: defaulted vs 0 vs 1e20 are the same constraint set);
+    * the active control mode of a well that is not OPEN is not compared (documented: lost for shut wells);
+    * a non-positive well guide rate means 'not specified'; status AUTO is written as SHUT (the simulator state has
+      no AUTO);
+    * the preferred phase is compared for producers only (as upstream's Schedule::cmp does)."""
+    s = json.loads(json.dumps(s))
+    for it in s["udq"]["items"].values():
+        if it["kind"] == "ASSIGN":
+            # the report step an ASSIGN was made at is bookkeeping: after a restart it is the restart step
+            it["report_step"] = "<bookkeeping>"
+            # the records (selector, value) come back as one record per well/group that holds a value: equivalent
+            # in effect; the values themselves are compared in half A (UDQState)
+            it["assign"] = "<records>"
+    for a in s["actions"].values():
+        for c in a["conditions"]:
+            # members of a condition: [lhs, rhs, logic, comparator, comparator text, ...]; the text forms are for
+            # printing only ('0.5' vs '0.500000', '>' vs '')
+            if isinstance(c, list) and len(c) > 4:
+                c[4] = "<text>"
+                for q in c[:2]:
+                    if isinstance(q, list) and q and isinstance(q[0], str):
+                        try:
+                            q[0] = repr(float(q[0]))
+                        except ValueError:
+                            pass
+    for g in s["groups"].values():
+        p = g["prod"]
+        for k in ("oil_target", "water_target", "gas_target", "liquid_target"):
+            p[k] = p[k][1] if p[k][0] == "s" else "<numeric>"
+        c = g.get("prodControls")
+        if isinstance(c, dict) and "cmode" in c:
+            for k, bit in (("oil_target", 1), ("water_target", 2), ("gas_target", 4), ("liquid_target", 8), ("resv_target", 32)):
+                if not p["controls"] & bit:
+                    c[k] = "<inactive>"
+            if hexf(c["guide_rate"]) <= 0:
+                c["guide_rate"] = "<none>"
+        if hexf(p["guide_rate"]) <= 0:
+            p["guide_rate"] = "<none>"
+        p["resv_target"] = "<see prodControls>"
+        for ph, q in g["inj"].items():
+            for k in ("surface_max_rate", "resv_max_rate", "target_reinj_fraction", "target_void_fraction"):
+                q[k] = q[k][1] if q[k][0] == "s" else "<numeric>"
+            c = g.get("injControls", {}).get(ph)
+            if isinstance(c, dict) and "cmode" in c:
+                for k, bit in (("surface_max_rate", 1), ("resv_max_rate", 2), ("target_reinj_fraction", 4), ("target_void_fraction", 8)):
+                    if not q["controls"] & bit:
+                        c[k] = "<inactive>"
+    for w in s["wells"].values():
+        producer = w["producer"]
+        for side in ("prod", "inj"):
+            raw = w.pop(side, None)
+            if raw is None or (side == "prod") != producer:
+                continue
+            w[side + "_udq"] = {k: v[1] for k, v in raw.items() if isinstance(v, list) and v and v[0] == "s"}
+            w[side + "_predictionMode"] = raw["predictionMode"]
+            w[side + "_VFPTableNumber"] = raw["VFPTableNumber"]
+        if not producer:
+            w.pop("preferredPhase", None)
+        if w["status"] == 4:
+            w["status"] = 3
+        if hexf(w["guideRate"]) <= 0:
+            w["guideRate"] = (-1.0).hex()
+        # a well that never got a control keyword (mode undefined) has no meaningful controls block
+        for ck, undef in (("prodControls", P_UNDEF), ("injControls", I_UNDEF)):
+            if ck in w and w[ck].get("cmode") == undef:
+                w[ck] = "<no control keyword yet>"
+        for ck, gi in (("prodControls", 8), ("injControls", 4)):
+            c = w.get(ck)
+            if isinstance(c, dict) and "has" in c and not w["availableForGroupControl"]:
+                c["has"][gi] = False        # the GRUP constraint only exists for wells under group control
+        c = w.get("prodControls")
+        if isinstance(c, dict) and "has" in c:
+            for k, i in PROD_LIMITS.items():
+                history_rate = (not c["prediction_mode"]) and k in ("oil_rate", "water_rate", "gas_rate")
+                if not c["has"][i] and not history_rate:
+                    c[k] = "<inactive>"
+            if c["prediction_mode"]:
+                c["bhp_history"] = c["thp_history"] = "<prediction>"
+            else:
+                # history matching wells: observed rates, control mode and BHP limit define the well; the set of
+                # 'constraints' is rebuilt from them on restart
+                c["has"] = "<history>"
+                for k in ("liquid_rate", "resv_rate", "thp_limit", "alq_value"):
+                    c[k] = "<history>"
+            if w["status"] != 1 or c["cmode"] == P_UNDEF:
+                c["cmode"] = "<not open or undefined>"
+        c = w.get("injControls")
+        if isinstance(c, dict) and "has" in c:
+            for k, i in INJ_LIMITS.items():
+                if not c["has"][i]:
+                    c[k] = "<inactive>"
+            if not c["prediction_mode"]:
+                c["has"] = "<history>"
+            if w["status"] != 1 or c["cmode"] == I_UNDEF:
+                c["cmode"] = "<not open or undefined>"
+    return s
+
+
+# attributes observed but not asserted, with the reason
+NOT_CLAIMED = {
+    # not in the statement's list (wells, connections, segments, group tree, controls/limits/targets, efficiency factors,
+    # well lists, UDQ and ACTIONX definitions, network nodes and branches)
+    "glo": "gas lift optimisation: not in the statement's list",
+    "oilvap": "DRSDT/DRVDT/VAPPARS: not in the statement's list",
+    "network_balance": "NETBALAN parameters: the statement names network nodes and branches only",
+    "guide_rate_model": "GUIDERAT model: not in the statement's list", "guide_rate_model.len": "see guide_rate_model",
+    "wtest_config": "WTEST: not in the statement's list",
+    "tuning": "design: not asserted", "nupcol": "not in the statement's list", "whistctl": "not in the statement's list",
+    "gconsale": "not in the statement's list", "gconsump": "not in the statement's list",
+    "start": "compared through Schedule::seconds",
+    "well.firstTimeStep": "a restarted well is first defined at the restart step (upstream's cmp only asks for <= step)",
+    "well.conn.r0": "design: recomputed", "well.conn.re": "recomputed", "well.conn.Ke": "recomputed",
+    "well.conn.length": "recomputed", "well.conn.dFactor": "not in the statement's connection list",
+    "well.conn.wpimult": "WPIMULT factor is folded into CF", "well.conn.global_index": "follows from I,J,K",
+    "well.pvtTable": "WELSPECS item 11 is not stored in the restart file (comes back 0); not in the statement's list - reported as an observation",
+    "well.fipRegion": "not stored; not in the statement's list",
+    "well.econ.onAnyEffectiveLimit": "derived",
+    "udq_active": "bookkeeping of which UDA uses which UDQ; the statement names the definitions",
+    "action.start_time": "the time the ACTIONX was entered (after a restart: the restart time); a lower bound for triggering only",
+    "well.prodControls.exc": "getter threw on both sides", "well.injControls.exc": "getter threw on both sides",
+}
